@@ -309,6 +309,18 @@ def run(ctx):
                   "no negative-value test in the setter", fs.where)
         ctx.check(order_ok and stores >= 1, "C18.b", f"{fs.qualname}.setter:order", "all tests and raises precede the single store",
                   "a test / raise follows the store (or the store vanished)", fs.where)
+    # the arithmetic operators take values from outside: their results reach the arrays only through these setters
+    for op in ("__iadd__", "__isub__", "__imul__", "__itruediv__"):
+        fi = HB.methods[op]
+        ctx.saw(fi)
+        direct = [w for st in ast.walk(fi.node) if isinstance(st, ast.stmt) for w in writes_of(st)
+                  if w.root == "self" and w.attr in ("_frequencies", "_errors2")]
+        via = [w for st in ast.walk(fi.node) if isinstance(st, ast.stmt) for w in writes_of(st)
+               if w.root == "self" and w.attr in ("frequencies", "errors2")]
+        ctx.check(not direct and len(via) >= 2, "C18.b", f"{fi.qualname}:through-setters",
+                  f"{len(via)} content stores, all through the validating setters",
+                  (f"`{U(direct[0].stmt)[:70]}` bypasses the validating setter: a negative or wrongly shaped result is stored "
+                   "instead of refused") if direct else "content stores not found", fi.where)
     # co-update of the two arrays outside the setters
     for c in m.classes.values():
         if not m.is_subclass(c, "HistogramBase"):
@@ -382,3 +394,4 @@ def run(ctx):
     ctx.rule("C18.g", "adaptive growth is always reported to the histogram, so arrays are reshaped with the binning", 1)
     from rules import c04
     c04.check_growth_reported(ctx, "C18.g", m)
+    c04.check_batch_growth(ctx, "C18.g", m)
